@@ -439,6 +439,20 @@ def run_tree(cssutils, c):
             'text': getattr(sheet, '_verif_text', None)}
 
 
+def show_kinds(sheet):
+    out = []
+    for r in sheet.cssRules:
+        if r.type == r.CHARSET_RULE:
+            out.append('cs:' + enc(r.encoding))
+        elif r.type == r.COMMENT:
+            out.append('cm')
+        elif r.type == r.IMPORT_RULE:
+            out.append('im')
+        else:
+            out.append('ot')
+    return '+'.join(out) or '-'
+
+
 def show_tree_result(res):
     if res['status'] == 'none':
         return 'NONE'
@@ -451,11 +465,11 @@ def show_tree_result(res):
     def rec(r):
         if r['found']:
             return ','.join([str(r['depth']), enc(r['url']), '1', on(r['parentArg']), str(r['enctype']), enc(r['used']),
-                             enc(r['text']), enc(r['reported'])])
+                             enc(r['text']), enc(r['reported']), show_kinds(r['sheet'])])
         # the parentEncoding of a failed attempt is not observable; the model prints it, so it is masked on both sides
-        return ','.join([str(r['depth']), enc(r['url']), '0', '*', '9', '-', '-', enc(r['reported'])])
-    return 'OK enc=%s log=%s recs=%s' % (enc(res['enc']), ','.join(enc(u) for u in res['log']),
-                                         '|'.join(rec(r) for r in res['recs']))
+        return ','.join([str(r['depth']), enc(r['url']), '0', '*', '9', '-', '-', enc(r['reported']), show_kinds(r['sheet'])])
+    return 'OK enc=%s rules=%s log=%s recs=%s' % (enc(res['enc']), show_kinds(res['sheet']), ','.join(enc(u) for u in res['log']),
+                                                  '|'.join(rec(r) for r in res['recs']))
 
 
 def mask_model_tree(m):
@@ -538,6 +552,20 @@ def spec_tree_violations(c, res):
         if not same_codec(r['reported'], rep_want):
             out.append({'clause': 'the reported encoding of an imported sheet is the encoding it was read in',
                         'detail': {'url': r['url'], 'reported': r['reported'], 'want': rep_want}})
+        # the imported sheet serialises to bytes that decode in its reported encoding and still hold the probe
+        try:
+            st = r['sheet'].cssText.decode(r['reported'])
+            if node.probe != 'none':
+                probe = '\xe4' if node.as_text else (PROBE if node.probe == 'good' else PROBE_BAD).decode(want)
+                s2 = __import__('cssutils').parseString(st)
+                vals = [x.style.getPropertyValue('content') for x in s2.cssRules if x.type == x.STYLE_RULE]
+                if '"%s"' % probe not in vals:
+                    out.append({'clause': 'the serialisation of an imported sheet decodes in its reported encoding to the '
+                                          'content it was read with',
+                                'detail': {'url': r['url'], 'serialised': st, 'want_char': probe}})
+        except (UnicodeDecodeError, LookupError) as x:
+            out.append({'clause': 'the serialisation of an imported sheet decodes in its reported encoding',
+                        'detail': {'url': r['url'], 'error': repr(x)}})
         if ov and r['reported'] != ov.lower():
             out.append({'clause': 'an explicit override governs every nested import',
                         'detail': {'url': r['url'], 'reported': r['reported'], 'override': ov}})
